@@ -1110,6 +1110,18 @@ func (c *Ctx) FIsNaN(a *Term) *Term {
 	if LowerCmp && BitsBacked(a) {
 		return c.nanBits(c.FBits(a))
 	}
+	// x*k and x/k for a finite non-zero constant k are NaN exactly when x is
+	if (a.Op == OFMul || a.Op == OFDiv) && len(a.Args) == 2 {
+		isK := func(t *Term) bool {
+			return t.IsConst() && !isNaNBits(t.U) && !math.IsInf(t.Float(), 0) && t.Float() != 0
+		}
+		if isK(a.Args[1]) {
+			return c.FIsNaN(a.Args[0])
+		}
+		if a.Op == OFMul && isK(a.Args[0]) {
+			return c.FIsNaN(a.Args[1])
+		}
+	}
 	return c.mk(OFIsNaN, Bool, []*Term{a}, 0, "", 0, 0)
 }
 func (c *Ctx) FIsInf(a *Term) *Term {
